@@ -387,7 +387,6 @@ CHECKS["C09"] = {
           covers=["served"] + (["datagram read"] if k else []), weight=4, **_envonly) for k in range(3)
     ] + [H("c09.VH_partial", {}, {}, covers=["datagram read in pieces", "next datagram read"], **_envonly),
          H("c09.VH_udp_burst", {"params": {"DGRAMS": 8}}, {"params": {"DGRAMS": 9}, "preempt": 1}, covers=["served", "more than the queue capacity delivered"], **_envonly),
-         H("c09.VH_udp_burst_short", {"params": {"DGRAMS": 8}}, {"params": {"DGRAMS": 9}, "preempt": 1}, covers=["served", "a later datagram was served by a fresh connection"], **_envonly),
          H("c09.VH_udp_idle", {"params": {}}, {"params": {}, "preempt": 1}, covers=["served", "resumed on a fresh connection", "all three datagrams read"], **_envonly)] + [H("c09.VH_udp", {"params": {"KIND": 0, "DGRAMS": 3, "CLIENTS": 1}, "preempt": 1}, {"params": {"KIND": 0, "DGRAMS": 4, "CLIENTS": 1}, "preempt": 2}, variant="burst",
            covers=["served", "several virtual connections"], weight=4, **_envonly)],
     "level_text": "bounded model checking of the real Server.servePacket (reader goroutine, select loop, per-client packetConn, closure notifications), packetConn.Read/Write/Close and Server.handle in the engine's goroutine mode on the virtual clock: a burst of 2-4 datagrams from one or two clients against handlers that return at once, read once, or echo; all cooperative schedules plus one pre-emption at a channel/go/sync operation and every choice of ready select case; asserted: no panic in any goroutine (send on closed channel, double close), no deadlock, the loop returns when the socket fails, every read of a virtual connection is the next datagram of its own client (in-order subsequence), replies go to the client whose datagram they answer",
